@@ -258,6 +258,18 @@ func (chain *Chain) loadState() error {
 	if err != nil || cache == nil {
 		return err
 	}
+	if cache.Number == 0 {
+		// Only a stop inside finalizeNodeAcceptSnapshot leaves round 0 as the
+		// head: before the accept snapshot was stored the finalization simply
+		// comes again, after it the first round transition is completed here.
+		if len(cache.Snapshots) == 0 {
+			return nil
+		}
+		_, cache, err = chain.node.startRoundAfterNodeAccept(cache)
+		if err != nil {
+			return err
+		}
+	}
 	state.CacheRound = cache
 
 	final, err := loadFinalRoundForNode(chain.persistStore, chain.ChainId, cache.Number-1)
